@@ -236,33 +236,44 @@ func explainBg(s *Sim, runner func(name string) *BgRunner) (vs []Violation, expl
 			return x
 		}
 		q := runner(tx.Name)
-		ok := false
-		var miss string
-		var missChange core.Change
+		// a sweep serves its rows independently of each other: every row it wrote must be what the sweep alone writes
+		// for that row at SOME clock value of the window (not necessarily the same one for all rows of a transaction:
+		// the rows' deadlines differ, and the write may be committed ticks after it was decided)
 		iso := isolate(tx)
+		rowOK := make([]bool, len(tx.Diff))
+		rowMiss := make([]string, len(tx.Diff))
 		for _, tau := range ticks {
 			seq, done := q.Run(iso, tau)
 			if !done {
 				continue
 			}
-			all := true
-			for _, c := range tx.Diff {
+			for i, c := range tx.Diff {
+				if rowOK[i] {
+					continue
+				}
 				sc, has := seq[c.Table+"/"+c.Key]
-				if !has || blur(NormEffect([]core.Change{sc})) != blur(NormEffect([]core.Change{c})) {
-					all = false
-					miss = fmt.Sprintf("concurrent: %s\n sequential at clock %d: %s", c, tau-Base, sc)
-					if !has {
-						miss = fmt.Sprintf("concurrent: %s\n sequential at clock %d: row untouched", c, tau-Base)
-					}
-					missChange = c
-					break
+				if has && blur(NormEffect([]core.Change{sc})) == blur(NormEffect([]core.Change{c})) {
+					rowOK[i] = true
+					continue
+				}
+				if has {
+					rowMiss[i] = fmt.Sprintf("concurrent: %s\n sequential at clock %d: %s", c, tau-Base, sc)
+				} else {
+					rowMiss[i] = fmt.Sprintf("concurrent: %s\n sequential at clock %d: row untouched", c, tau-Base)
 				}
 			}
-			// (the concurrent sweep may do less than the sequential one: a guarded write that finds its row changed
-			// since the read is refused, while the sequential sweep may well serve the row in its new state)
-			if all {
-				ok = true
-				break
+		}
+		ok := true
+		var miss string
+		var missChange core.Change
+		var misses []string
+		for i, c := range tx.Diff {
+			if !rowOK[i] {
+				ok = false
+				if miss != "" {
+					misses = append(misses, miss)
+				}
+				miss, missChange = rowMiss[i], c
 			}
 		}
 		if ok {
@@ -289,7 +300,7 @@ func explainBg(s *Sim, runner func(name string) *BgRunner) (vs []Violation, expl
 				}
 			}
 		}
-		vs = append(vs, Violation{"C02", "bg-unexplained", key, fmt.Sprintf("background transaction tx#%d of %s [%s] (dispatched %d, committed %d) wrote what the sweep run alone on the state it found does not write at any clock value of its window %v: it overrode an intermediate change.\n %s", tx.Seq, tx.ReqId, tx.CmdString(), tx.Dispatch-Base, tx.Tick-Base, rel(ticks), miss)})
+		vs = append(vs, Violation{"C02", "bg-unexplained", key, fmt.Sprintf("background transaction tx#%d of %s [%s] (dispatched %d, committed %d) wrote what the sweep run alone on the state it found does not write at any clock value of its window %v: it overrode an intermediate change.\n %s\n earlier candidates: %s", tx.Seq, tx.ReqId, tx.CmdString(), tx.Dispatch-Base, tx.Tick-Base, rel(ticks), miss, strings.Join(misses, " || "))})
 	}
 	return
 }
